@@ -35,6 +35,8 @@ _greek_months = {
     "\u03a6\u03b5\u03b2": "Feb",  # d6e5e2 in iso-8859-7
     "\u039c\u03ac\u03ce": "Mar",  # ccdcfe in iso-8859-7
     "\u039c\u03b1\u03ce": "Mar",  # cce1fe in iso-8859-7
+    "\u039c\u03ac\u03c1": "Mar",  # ccdcf1 in iso-8859-7
+    "\u039c\u03b1\u03c1": "Mar",  # cce1f1 in iso-8859-7
     "\u0391\u03c0\u03c1": "Apr",  # c1f0f1 in iso-8859-7
     "\u039c\u03ac\u03b9": "May",  # ccdce9 in iso-8859-7
     "\u039c\u03b1\u03ca": "May",  # cce1fa in iso-8859-7
